@@ -373,12 +373,13 @@ def check_numeric(ctx, prefix, cases):
 
 # ------------------------------------------------------------------ property-level judge (spec)
 def judge_laws(ctx, n):
-    """Semiring laws / log image on the real classes, judged against exact rational arithmetic (tolerance 1e-9)."""
+    """Semiring laws / log image on the real classes, judged against exact rational arithmetic (tolerance 1e-9).
+    Independent of the Coq side.  An exception inside any law instance is a violation."""
     from problog.evaluator import SemiringProbability, SemiringLogProbability
     from problog.logic import Constant
     P, L = SemiringProbability(), SemiringLogProbability()
     rng = ctx.rng
-    special = [0.0, 1.0, 0.5, 1e-9, 1e-12, 1 - 1e-9, 1 - 1e-12, 1e-300, 0.25, 1.0 / 3]
+    special = [0.0, 1.0, 0.5, 1e-9, 1e-12, 1 - 1e-9, 1 - 1e-12, 1e-300, 0.25, 1.0 / 3, 1e-5, 1e-8, 2e-9]
     tol = 1e-9
 
     def pick():
@@ -390,43 +391,126 @@ def judge_laws(ctx, n):
     for _ in range(n):
         a, b, c = pick(), pick(), pick()
         fa, fb, fc = Fraction(a), Fraction(b), Fraction(c)
-        checks = []
-        # probability semiring against exact arithmetic
-        checks.append(("prob plus", P.plus(a, b), fa + fb))
-        checks.append(("prob times", P.times(a, b), fa * fb))
-        checks.append(("prob negate", P.negate(a), 1 - fa))
-        checks.append(("prob plus assoc", P.plus(P.plus(a, b), c), fa + fb + fc))
-        checks.append(("prob distr", P.times(a, P.plus(b, c)), fa * (fb + fc)))
-        checks.append(("prob plus zero", P.plus(P.zero(), a), fa))
-        checks.append(("prob times one", P.times(P.one(), a), fa))
-        checks.append(("prob times zero", P.times(P.zero(), a), Fraction(0)))
+        ea, eb, ec = [Fraction(0) if x < 1e-9 else Fraction(x) for x in (a, b, c)]   # log value() cuts below 1e-9
+        ws = [a / 3, b / 3, c / 3]
+        checks = [
+            ("prob plus", lambda: P.plus(a, b), fa + fb),
+            ("prob plus comm", lambda: P.plus(b, a), fa + fb),
+            ("prob times", lambda: P.times(a, b), fa * fb),
+            ("prob times comm", lambda: P.times(b, a), fa * fb),
+            ("prob negate", lambda: P.negate(a), 1 - fa),
+            ("prob plus assoc", lambda: P.plus(P.plus(a, b), c), fa + fb + fc),
+            ("prob plus assoc r", lambda: P.plus(a, P.plus(b, c)), fa + fb + fc),
+            ("prob distr", lambda: P.times(a, P.plus(b, c)), fa * (fb + fc)),
+            ("prob plus zero", lambda: P.plus(P.zero(), a), fa),
+            ("prob times one", lambda: P.times(P.one(), a), fa),
+            ("prob times zero", lambda: P.times(P.zero(), a), Fraction(0)),
+            ("log value/result", lambda: L.result(lv(a)), ea),
+            ("log plus", lambda: L.result(L.plus(lv(a), lv(b))), ea + eb),
+            ("log plus comm", lambda: L.result(L.plus(lv(b), lv(a))), ea + eb),
+            ("log times", lambda: L.result(L.times(lv(a), lv(b))), ea * eb),
+            ("log times comm", lambda: L.result(L.times(lv(b), lv(a))), ea * eb),
+            ("log plus assoc", lambda: L.result(L.plus(L.plus(lv(a), lv(b)), lv(c))), ea + eb + ec),
+            ("log plus assoc r", lambda: L.result(L.plus(lv(a), L.plus(lv(b), lv(c)))), ea + eb + ec),
+            ("log distr", lambda: L.result(L.times(lv(a), L.plus(lv(b), lv(c)))), ea * (eb + ec)),
+            ("log distr r", lambda: L.result(L.plus(L.times(lv(a), lv(b)), L.times(lv(a), lv(c)))), ea * (eb + ec)),
+            ("log negate", lambda: L.result(L.negate(lv(a))), 1 - ea),
+            ("log plus zero", lambda: L.result(L.plus(L.zero(), lv(a))), ea),
+            ("log plus zero r", lambda: L.result(L.plus(lv(a), L.zero())), ea),
+            ("log times one", lambda: L.result(L.times(L.one(), lv(a))), ea),
+            ("log times zero", lambda: L.result(L.times(L.zero(), lv(a))), Fraction(0)),
+            ("prob ad_complement", lambda: P.ad_complement(ws), 1 - sum(Fraction(x) for x in ws)),
+            ("log ad_complement", lambda: L.result(L.ad_complement([lv(x) for x in ws])),
+             1 - sum(Fraction(0) if x < 1e-9 else Fraction(x) for x in ws)),
+        ]
         if b > 1e-6:
-            checks.append(("prob normalize", P.normalize(a * b, b), fa))
-        # log semiring: image of the above
-        la, lb, lc = lv(a), lv(b), lv(c)
-        ea, eb, ec = [Fraction(0) if x < 1e-9 else Fraction(x) for x in (a, b, c)]   # value() cuts below 1e-9
-        checks.append(("log value/result", L.result(la), ea))
-        checks.append(("log plus", L.result(L.plus(la, lb)), ea + eb))
-        checks.append(("log plus comm", L.result(L.plus(lb, la)), ea + eb))
-        checks.append(("log times", L.result(L.times(la, lb)), ea * eb))
-        checks.append(("log plus assoc", L.result(L.plus(L.plus(la, lb), lc)), ea + eb + ec))
-        checks.append(("log distr", L.result(L.times(la, L.plus(lb, lc))), ea * (eb + ec)))
-        checks.append(("log negate", L.result(L.negate(la)), 1 - ea))
-        checks.append(("log plus zero", L.result(L.plus(L.zero(), la)), ea))
-        checks.append(("log times one", L.result(L.times(L.one(), la)), ea))
-        checks.append(("log times zero", L.result(L.times(L.zero(), la)), Fraction(0)))
+            checks.append(("prob normalize", lambda: P.normalize(a * b, b), fa))
         if eb > 0 and ea > 0:
-            checks.append(("log normalize", L.result(L.normalize(L.times(la, lb), lb)), ea))
-        ws = [x for x in (a / 3, b / 3, c / 3)]
-        checks.append(("prob ad_complement", P.ad_complement(ws), 1 - sum(Fraction(x) for x in ws)))
-        checks.append(("log ad_complement", L.result(L.ad_complement([lv(x) for x in ws])),
-                       1 - sum(Fraction(0) if x < 1e-9 else Fraction(x) for x in ws)))
+            checks.append(("log normalize", lambda: L.result(L.normalize(L.times(lv(a), lv(b)), lv(b))), ea))
         ctx.case(("laws", a, b, c), True)
         ctx.count("law triples")
-        for what, got, want in checks:
-            if not (isinstance(got, float) and abs(Fraction(got) - want) <= Fraction(tol) * max(1, abs(want))):
+        for what, fn, want in checks:
+            got = run_impl(fn)
+            good = got[0] == "ok" and isinstance(got[1], float) and abs(Fraction(got[1]) - want) <= Fraction(tol) * max(1, abs(want))
+            if not good:
                 ctx.violation("%s: a=%r b=%r c=%r gives %r, exact value %s" % (what, a, b, c, got, float(want)),
-                              {"law": what, "a": a, "b": b, "c": c, "got": repr(got), "want": str(want)}, klass="semiring-law-" + what.replace(" ", "-"))
+                              {"law": what, "a": a, "b": b, "c": c, "got": repr(got), "want": str(want)},
+                              klass="semiring-law-" + what.replace(" ", "-"))
+
+
+def _lse_exact(a, b):
+    """ln(e^a + e^b) for log-space floats (Decimal, 40 digits); -inf is the zero."""
+    if a == -math.inf:
+        return None if b == -math.inf else Decimal(b)
+    if b == -math.inf:
+        return Decimal(a)
+    hi, lo = (a, b) if a >= b else (b, a)
+    d = Decimal(hi) - Decimal(lo)
+    if d > 200:
+        return Decimal(hi)
+    return Decimal(hi) + (1 + (-d).exp()).ln()
+
+
+def judge_log_extremes(ctx, nrandom):
+    """The log semiring on its WHOLE domain (logs of weights in [0,1], including products of many small
+    probabilities): plus/times must not raise, must be commutative and associative and must agree with
+    ln(e^a + e^b) / a + b, in both argument orders.  Independent of the Coq side."""
+    from problog.evaluator import SemiringLogProbability
+    from problog.logic import Constant
+    L = SemiringLogProbability()
+    rng = ctx.rng
+    v5 = L.value(Constant(1e-5))
+    chain = L.one()
+    chains = []
+    for k in range(1, 161):
+        chain = L.times(chain, v5)          # log(1e-5 ** k): -11.5 .. -1842
+        if k in (1, 10, 40, 61, 62, 65, 80, 100, 160):
+            chains.append(chain)
+    xs = [-math.inf, 0.0, -1e-13, -1e-9, math.log(0.5), math.log(0.3), math.log(1e-9), -50.0, -300.0, -700.0, -709.0, -709.9,
+          -710.0, -744.4400719213812, -745.0, -746.0, -1e3, -1e4, -1e6, -1e100] + chains
+    pairs = [(a, b) for a in xs for b in xs]
+    for _ in range(nrandom):
+        pairs.append((rng.choice(xs) * rng.random() if rng.random() < 0.5 else rng.choice(xs), -rng.expovariate(1 / 300.0)))
+
+    def bad_value(got, exact):
+        if exact is None:
+            return not (got[0] == "ok" and got[1] == -math.inf)
+        if got[0] != "ok" or not isinstance(got[1], float) or math.isnan(got[1]) or math.isinf(got[1]):
+            return True
+        g = Decimal(got[1])
+        return abs(g - exact) > Decimal("1e-9") * max(Decimal(1), abs(exact))
+
+    for a, b in pairs:
+        ctx.case(("logext", a, b), True, sample={"log-space pair": [a, b]})
+        ctx.count("log-space extreme pairs")
+        exact = _lse_exact(a, b)
+        p1, p2 = run_impl(L.plus, a, b), run_impl(L.plus, b, a)
+        for what, got in (("plus(a, b)", p1), ("plus(b, a)", p2)):
+            if bad_value(got, exact):
+                ctx.violation("SemiringLogProbability.%s with a=%r b=%r gives %r, ln(e^a+e^b) = %s"
+                              % (what, a, b, got, "-inf" if exact is None else float(exact)),
+                              {"op": what, "a": a, "b": b, "got": repr(got)}, klass="log-plus-wrong-on-extreme-values")
+        if p1 != p2 and not (p1[0] == p2[0] == "ok" and isinstance(p1[1], float) and isinstance(p2[1], float)
+                             and abs(p1[1] - p2[1]) <= 1e-12 * max(1.0, abs(p1[1]))):
+            ctx.violation("SemiringLogProbability.plus is not commutative: plus(%r, %r) = %r, plus(%r, %r) = %r" % (a, b, p1, b, a, p2),
+                          {"a": a, "b": b, "ab": repr(p1), "ba": repr(p2)}, klass="log-plus-not-commutative")
+        t1, t2 = run_impl(L.times, a, b), run_impl(L.times, b, a)
+        want = a + b
+        for what, got in (("times(a, b)", t1), ("times(b, a)", t2)):
+            if got != ("ok", want):
+                ctx.violation("SemiringLogProbability.%s with a=%r b=%r gives %r, expected %r" % (what, a, b, got, want),
+                              {"op": what, "a": a, "b": b, "got": repr(got)}, klass="log-times-wrong-on-extreme-values")
+    # associativity on triples mixing ordinary and extreme values
+    for _ in range(max(50, nrandom // 4)):
+        a, b, c = rng.choice(xs), rng.choice(xs), rng.choice(xs)
+        l = run_impl(lambda: L.plus(L.plus(a, b), c))
+        r = run_impl(lambda: L.plus(a, L.plus(b, c)))
+        ctx.count("log-space extreme triples")
+        same = l == r or (l[0] == r[0] == "ok" and isinstance(l[1], float) and isinstance(r[1], float)
+                          and abs(l[1] - r[1]) <= 1e-9 * max(1.0, abs(l[1])))
+        if not same:
+            ctx.violation("SemiringLogProbability.plus is not associative on (%r, %r, %r): %r vs %r" % (a, b, c, l, r),
+                          {"a": a, "b": b, "c": c, "left": repr(l), "right": repr(r)}, klass="log-plus-not-associative")
 
 
 def judge_defaults(ctx):
@@ -569,7 +653,7 @@ def shrink_tree(t, bad):
     return t
 
 
-def run_symbolic(ctx, n):
+def run_symbolic(ctx, n, model_ok=True):
     from problog.evaluator import SemiringSymbolic
     sr = SemiringSymbolic()
     steps_all = {}
@@ -603,6 +687,8 @@ def run_symbolic(ctx, n):
             ctx.violation("SemiringSymbolic renders %r as %r which reads (standard precedence) as %s, exact value %s"
                           % (small, ss, py_value_of(ss), sv),
                           {"tree": repr(small), "string": ss, "reads_as": str(py_value_of(ss)), "exact": str(sv)}, klass=klass)
+    if not model_ok:
+        return
     # model vs implementation: every single operation application observed above, string for string
     terms, metas = [], []
     for (m, args), r in sorted(steps_all.items()):
@@ -638,18 +724,28 @@ def run(ctx):
         "(exact on the probability instance) and the theorem C12_log_image_ad_complement",
     ]
     from problog.evaluator import SemiringProbability, SemiringLogProbability
-    generate(ctx)
-    ctx.log("translated; building proof cone")
-    ok = ctx.prove("C12/Props.v")
+    ok = False
+    try:
+        generate(ctx)
+        ctx.log("translated; building proof cone")
+        ok = ctx.prove("C12/Props.v")
+    except Exception as e:  # noqa  (translator fails closed on unknown syntax: an obligation is broken, the judges still run)
+        ctx.cov["obligations"] = max(ctx.cov["obligations"], 1)
+        ctx.broken.append("translator:gen/c12_semiring.py cannot translate the current problog/evaluator.py (%s: %s)"
+                          % (type(e).__name__, str(e)[:300]))
     ctx.log("Props.v:", "ok" if ok else "BROKEN")
     if ok and ctx.tier == "thorough":
         ctx.coqchk("PL.C12.Props")
         ctx.log("coqchk done")
-    # ---- documented defaults on the real classes (and on a minimal subclass)
+    # ---- property-level judges: independent of the Coq side, run whatever happened above
     judge_defaults(ctx)
+    ctx.log("law triples, log-space extremes, symbolic trees")
+    judge_laws(ctx, ctx.n(300, 20000))
+    judge_log_extremes(ctx, ctx.n(200, 5000))
+    run_symbolic(ctx, ctx.n(300, 6000), model_ok=ok)
     if not ok:
         return
-    # ---- float-level tie
+    # ---- float-level tie (needs the generated model)
     extra = ctx.n(20, 150)
     ug, lg = unit_grid(ctx.rng, extra), log_grid(ctx.rng, extra)
     for cls, prefix, eg, ig in ((SemiringProbability, "prob", ug, ug), (SemiringLogProbability, "log", ug, lg)):
@@ -666,7 +762,3 @@ def run(ctx):
         for c in bad[:5]:
             ctx.broken.append("correspondence:GenSemirings %s_%s%r: implementation %r, model %s"
                               % (prefix, c["m"], c["args"], c["impl"], c.get("model", "differs")))
-    # ---- property-level judge
-    ctx.log("law triples and symbolic trees")
-    judge_laws(ctx, ctx.n(300, 20000))
-    run_symbolic(ctx, ctx.n(300, 6000))
